@@ -16,6 +16,7 @@ import json
 import os
 import subprocess
 import sys
+import threading
 import time
 
 HERE = os.path.dirname(os.path.abspath(__file__))
@@ -64,9 +65,16 @@ def run_specs(pid: str, specs, jobs: int, timeout_s: float):
     env["PYTHONDONTWRITEBYTECODE"] = "1"
     env[common.GUARD_ENV] = "1"
     results, problems = [], []
+    # development aid for tools/mutsweep.py: stop starting shards once one has reported a violation that is not a known
+    # finding.  Never set by the registered commands.
+    failfast = os.environ.get("VERIF_FAILFAST") == "1"
+    stop = threading.Event()
+    known = load_known(pid) if failfast else []
 
     def one(i_spec):
         i, spec = i_spec
+        if stop.is_set():
+            return None, None
         out_path = os.path.join(WORK, "%s_%d_%d.json" % (pid, os.getpid(), i))
         spec = dict(spec)
         spec["__out__"] = out_path
@@ -89,6 +97,8 @@ def run_specs(pid: str, specs, jobs: int, timeout_s: float):
                 data = json.load(f)
         finally:
             os.unlink(out_path)
+        if failfast and any(not any(matches(k, v["sig"]) for k in known) for v in data.get("violations", [])):
+            stop.set()
         return data, None
 
     with concurrent.futures.ThreadPoolExecutor(max_workers=jobs) as ex:
